@@ -101,11 +101,11 @@ FAST = (
     "all unordered pairs (both directions evaluated) of the enumerated circuits of <= 2 ops over ALPHA on (2e,2p,1c) "
     "[quick: 13(+1)-op alphabet, 183 (211) circuits; thorough: 21(+1)-op alphabet, 463 (507) circuits] + near-miss pairs (role swap, gate change, "
     "register move, drop, duplicate, adjacent swap, renaming, wrapping, identity padding, different register counts) of "
-    "seeded random circuits of <= 6 ops on <= (3e,2p,2c) [quick 400 bases, thorough 4000]"
+    "seeded random circuits of <= 6 ops on <= (3e,2p,2c) [quick 300 bases, thorough 4000]"
 )
 SLOW = (
     "all unordered pairs of circuits of <= 1 op and a seeded sample of pairs of <= 2 ops over an 8-op alphabet on (1e,1p,1c) "
-    "and (2e,1p,0c) [quick 250 pairs, thorough 4000], near-miss pairs of 2-op circuits; the networkx optimisers run with "
+    "and (2e,1p,0c) [quick 30 pairs, thorough 3000], near-miss pairs of 2-op circuits; the networkx optimisers run with "
     "graphiq's own time-outs"
 )
 make_pair_item("direct", FAST)
@@ -113,9 +113,10 @@ make_pair_item("check_redundant_circuit", FAST)
 make_pair_item(
     "is_isomorphic",
     FAST + "; classically controlled pairs only between registers of different type here (same-type ones: item "
-    "is_isomorphic.classical_control_roles)",
+    "is_isomorphic.classical_control_roles); plus all unordered pairs of the 259 circuits of <= 3 ops over ALPHA3 on (2e,0p,0c) "
+    "that have no parallel DAG edges (those: item is_isomorphic.parallel_edges)",
 )
-make_pair_item("GED_approximate", SLOW.replace("quick 250 pairs", "quick 1500 pairs"))
+make_pair_item("GED_approximate", SLOW.replace("quick 30 pairs", "quick 800 pairs"))
 make_pair_item("GED_full", SLOW)
 make_pair_item("GED_adaptive", SLOW + "; plus 6 circuits of >= 30 nodes (approximate branch) against copies and near misses")
 
@@ -317,6 +318,86 @@ def roles_dedup_case(inp):
     return dedup_case({"circuits": [[inp["ra"], inp["a"]], [inp["rb"], inp["b"]]]})
 
 
+# Open finding #2 (C15.findings.md): circuit_is_isomorphic looks at one of several parallel edges only.  While it is open,
+# circuits with parallel edges are driven through the dedicated items below and kept out of the large is_isomorphic domains
+# (set to False once /repo is repaired to widen the domains again).
+EXCLUDE_PARALLEL = True
+
+
+def has_parallel(ops):
+    """two operations adjacent on two (or more) wires of the reduced (unwrapped, identity-free) circuit built with add()"""
+    from refsem import dagmodel as dm
+    from refsem.metrics import reduce_ops
+
+    red, _ = reduce_ops(ops)
+    m = dm.WireModel(4, 4, 4)
+    for d in red:
+        m.add(d)
+    seen = set()
+    for w in m.wires.values():
+        for a, b in zip(w, w[1:]):
+            if (a, b) in seen:
+                return True
+            seen.add((a, b))
+    return False
+
+
+def _e(i):
+    return ["e", i]
+
+
+PARALLEL_PAIRS = [
+    # role-exchanged second gate of two consecutive two-qubit gates on the same register pair: inequivalent
+    {"ra": [2, 0, 0], "a": [["g", "H", _e(1)], ["cx", _e(0), _e(1)], ["cx", _e(0), _e(1)]], "rb": [2, 0, 0], "b": [["g", "H", _e(1)], ["cx", _e(0), _e(1)], ["cx", _e(1), _e(0)]]},
+    {"ra": [2, 0, 0], "a": [["g", "H", _e(0)], ["cx", _e(1), _e(0)], ["cx", _e(1), _e(0)], ["g", "P", _e(0)]], "rb": [2, 0, 0], "b": [["g", "H", _e(0)], ["cx", _e(1), _e(0)], ["cx", _e(0), _e(1)], ["g", "P", _e(0)]]},
+    {"ra": [0, 2, 0], "a": [["g", "H", ["p", 1]], ["cx", ["p", 0], ["p", 1]], ["cx", ["p", 0], ["p", 1]]], "rb": [0, 2, 0], "b": [["g", "H", ["p", 1]], ["cx", ["p", 0], ["p", 1]], ["cx", ["p", 1], ["p", 0]]]},
+    # the same circuits against themselves / a renamed copy: equivalent, must pass whatever the verdict
+    {"ra": [2, 0, 0], "a": [["g", "H", _e(1)], ["cx", _e(0), _e(1)], ["cx", _e(1), _e(0)]], "rb": [2, 0, 0], "b": [["g", "H", _e(0)], ["cx", _e(1), _e(0)], ["cx", _e(0), _e(1)]]},
+]
+_CZ2 = [["cz", _e(1), _e(0)], ["cz", _e(1), _e(0)]]
+PARALLEL_LISTS = [
+    {"circuits": [[[2, 0, 0], PARALLEL_PAIRS[0]["a"]], [[2, 0, 0], PARALLEL_PAIRS[0]["b"]]], "expect_kept": 2},
+    {"circuits": [[[0, 2, 0], PARALLEL_PAIRS[2]["a"]], [[0, 2, 0], PARALLEL_PAIRS[2]["b"]]], "expect_kept": 2},
+    # a circuit and the same circuit with an identity between the two gates: one must go
+    {"circuits": [[[2, 0, 0], _CZ2], [[2, 0, 0], [_CZ2[0], ["g", "I", _e(1)], _CZ2[1]]]], "expect_kept": 1},
+    {"circuits": [[[2, 0, 0], [["cx", _e(0), _e(1)], ["cx", _e(0), _e(1)]]], [[2, 0, 0], [["cx", _e(0), _e(1)], ["w", ["I"], _e(0)], ["cx", _e(0), _e(1)]]]], "expect_kept": 1},
+]
+
+
+@S.item(
+    "is_isomorphic.parallel_edges",
+    site=CC + "circuit_is_isomorphic (edge_match)",
+    bound="4 fixed pairs of circuits in which two consecutive two-qubit gates act on the same register pair (parallel DAG "
+    "edges); second gate with exchanged roles (3, inequivalent) / consistently renamed (1, equivalent)",
+    exhaustive=True,
+    clause="reported equal => same compiled state up to renaming (parallel edges)",
+)
+def parallel_case(inp):
+    return pair_contract("is_isomorphic", inp)
+
+
+@S.item(
+    "remove_redundant_circuits.parallel_edges",
+    site=CC + "remove_redundant_circuits",
+    bound="4 fixed two-element lists with parallel DAG edges: 2 with inequivalent members (both must stay), 2 whose members differ "
+    "by an identity gate only (one must go)",
+    exhaustive=True,
+    clause="never discards a distinct circuit; insensitive to identity gates (parallel edges)",
+)
+def parallel_dedup_case(inp):
+    import graphiq.utils.circuit_comparison as cc
+
+    s = dedup_case({"circuits": inp["circuits"]})
+    if s:
+        return s
+    kept = cc.remove_redundant_circuits([build(r, o) for r, o in inp["circuits"]])
+    if len(kept) != inp["expect_kept"]:
+        return f"{len(kept)} circuits kept, {inp['expect_kept']} expected (the members differ by an identity gate only)"
+    return None
+
+
+ALPHA3 = [["g", "H", _e(0)], ["g", "H", _e(1)], ["g", "P", _e(0)], ["cx", _e(0), _e(1)], ["cx", _e(1), _e(0)], ["cz", _e(0), _e(1)]]
+
 # ---------------------------------------------------------------------------------------------- domains
 def alpha_fast(thorough, iso):
     """ALPHA: operation alphabet of the enumerated circuits on (2e,2p,1c).  Classically controlled pairs between two registers
@@ -448,22 +529,29 @@ def run(tier, seed):
     def near(iso, n_base):
         r = np.random.default_rng([seed, 15, int(iso)])
         pairs, bases, fams = [], [], []
-        for _ in range(n_base):
+        while len(bases) < n_base:
             b = random_base(r, iso)
             vs = variants(r, b, iso)
+            if iso and EXCLUDE_PARALLEL:
+                if has_parallel(b[1]):
+                    continue
+                vs = [v for v in vs if not has_parallel(v[1])]
             bases.append(b)
             fams.append([b] + vs)
             pairs += [{"ra": b[0], "a": b[1], "rb": v[0], "b": v[1]} for v in vs]
         return pairs, bases, fams
 
-    n_base = 4000 if thorough else 400
+    n_base = 4000 if thorough else 300
     near_x, bases_x, fams_x = near(False, n_base)
     near_i, bases_i, fams_i = near(True, n_base)
     E_x = enumerated(alpha_fast(thorough, False), regs)
     E_i = enumerated(alpha_fast(thorough, True), regs)
-    S.map("direct.sound_symmetric", all_pairs(E_x) + near_x, nontrivial=nontrivial_pair)
-    S.map("check_redundant_circuit.sound_symmetric", all_pairs(E_x) + near_x, nontrivial=nontrivial_pair)
-    S.map("is_isomorphic.sound_symmetric", all_pairs(E_i) + near_i, nontrivial=nontrivial_pair)
+    E3 = enumerated(ALPHA3, (2, 0, 0), 3)
+    E3_i = [c for c in E3 if not (EXCLUDE_PARALLEL and has_parallel(c[1]))]
+    px = all_pairs(E_x)
+    S.map("direct.sound_symmetric", px + near_x + (all_pairs(E3) if thorough else []), nontrivial=nontrivial_pair)
+    S.map("check_redundant_circuit.sound_symmetric", (px if thorough else px[::2]) + near_x, nontrivial=nontrivial_pair)
+    S.map("is_isomorphic.sound_symmetric", all_pairs(E_i) + near_i + all_pairs(E3_i), nontrivial=nontrivial_pair)
 
     # GED methods: small registers
     small_pairs_1, small_pairs_2, small_circs = [], [], []
@@ -472,21 +560,20 @@ def run(tier, seed):
         c2 = enumerated(A, rg, 2)
         small_circs += c2
         small_pairs_1 += all_pairs(c1)
-        p2 = all_pairs(c2)
-        small_pairs_2 += p2
+        small_pairs_2 += all_pairs(c2)
     idx = rng.permutation(len(small_pairs_2))
-    n_slow = 4000 if thorough else 250
-    n_apx = len(idx) if thorough else 1500
+    n_slow = 3000 if thorough else 30
+    n_apx = len(idx) if thorough else 800
     small_near = []
     r2 = np.random.default_rng([seed, 152])
     for c in small_circs:
-        if len(c[1]) == 2 and r2.random() < (1.0 if thorough else 0.15):
+        if len(c[1]) == 2 and r2.random() < (1.0 if thorough else 0.04):
             small_near += [{"ra": c[0], "a": c[1], "rb": v[0], "b": v[1]} for v in variants(r2, c, False)[:9]]
     slow = small_pairs_1 + [small_pairs_2[i] for i in idx[:n_slow]] + small_near
     S.map("GED_approximate.sound_symmetric", small_pairs_1 + [small_pairs_2[i] for i in idx[:n_apx]] + small_near, nontrivial=nontrivial_pair)
-    S.map("GED_full.sound_symmetric", slow, nontrivial=nontrivial_pair, chunksize=4)
+    S.map("GED_full.sound_symmetric", slow, nontrivial=nontrivial_pair, chunksize=2)
     big = []
-    for j in range(6):
+    for j in range(6 if thorough else 3):
         b = big_circuit(rng, 22 + j)
         big.append({"ra": b[0], "a": b[1], "rb": b[0], "b": b[1]})
         v = variants(rng, b, False)
@@ -495,15 +582,18 @@ def run(tier, seed):
 
     # reflexive
     fastm = ["direct", "is_isomorphic", "check_redundant_circuit"]
-    refl = [{"ra": c[0], "a": c[1], "methods": fastm} for c in E_x + bases_x]
-    refl += [{"ra": c[0], "a": c[1], "methods": METHODS} for c in small_circs]
+    refl = [{"ra": c[0], "a": c[1], "methods": fastm} for c in E_x + bases_x + E3]
+    refl += [{"ra": c[0], "a": c[1], "methods": METHODS} for c in small_circs[:: (1 if thorough else 3)]]
     refl += [{"ra": b["ra"], "a": b["a"], "methods": ["GED_adaptive", "GED_approximate"]} for b in big[::4]]
     S.map("compare.reflexive_on_copies", refl, chunksize=4)
 
     # insensitivity
-    ins = [dict(p, methods=["direct", "check_redundant_circuit"], dedup=(k % 5 == 0)) for k, p in enumerate(near_x[:: (1 if thorough else 2)])]
-    ins += [dict(p, methods=["GED_approximate"] + (["GED_full"] if k % 4 == 0 else [])) for k, p in enumerate(small_near[:: (1 if thorough else 3)])]
-    ins += [dict(p, methods=["direct", "check_redundant_circuit"], dedup=True) for p in all_pairs(enumerated(alpha_fast(False, True)[:8], regs))]
+    def dedup_ok(p):
+        return not (EXCLUDE_PARALLEL and (has_parallel(p["a"]) or any(d[0] in ("ccx", "ccz", "mcr") and d[1][0] == d[2][0] for d in p["a"])))
+
+    ins = [dict(p, methods=["direct", "check_redundant_circuit"], dedup=(k % 3 == 0 and dedup_ok(p))) for k, p in enumerate(near_x[:: (1 if thorough else 4)])]
+    ins += [dict(p, methods=["GED_approximate"] + (["GED_full"] if k % 8 == 0 else [])) for k, p in enumerate(small_near[:: (1 if thorough else 2)])]
+    ins += [dict(p, methods=["direct"], dedup=dedup_ok(p)) for p in all_pairs(enumerated(alpha_fast(False, True)[5:11], regs))]
     S.map("compare.insensitive_to_wrapping_and_identities", ins, nontrivial=nontrivial_pair, chunksize=4)
 
     # lists
@@ -519,8 +609,11 @@ def run(tier, seed):
 
     r3 = np.random.default_rng([seed, 153])
     n_lists = 15000 if thorough else 1500
-    e2 = [c for c in E_i if len(c[1]) == 2]
-    fam_e = [[c] + variants(r3, c, True) for c in [e2[i] for i in r3.choice(len(e2), size=min(len(e2), n_lists // 10), replace=False)]]
+    e2 = [c for c in E_i if len(c[1]) == 2 and not (EXCLUDE_PARALLEL and has_parallel(c[1]))]
+    fam_e = []
+    for i in r3.choice(len(e2), size=min(len(e2), n_lists // 10), replace=False):
+        vs = [v for v in variants(r3, e2[i], True) if not (EXCLUDE_PARALLEL and has_parallel(v[1]))]
+        fam_e.append([e2[i]] + vs)
     small12 = [[list(regs), o] for o in (
         [], [["g", "H", ["e", 0]]], [["g", "H", ["e", 1]]], [["w", ["H"], ["e", 0]]], [["g", "H", ["e", 0]], ["g", "I", ["p", 0]]],
         [["g", "H", ["e", 0]], ["cx", ["e", 0], ["p", 0]]], [["g", "H", ["e", 1]], ["cx", ["e", 1], ["p", 1]]],
@@ -533,15 +626,21 @@ def run(tier, seed):
     lists_x = lists_from(fams_x, r3, n_lists // 2)
     st = [dict(l, mode="default") for l in lists_x + tuples[:: (1 if thorough else 3)]]
     st += [dict(l, mode="iso") for l in lists_i[: n_lists // 2]]
-    st += [dict(l, mode="disabled") for l in lists_x[:: 10]]
+    st += [dict(l, mode="disabled") for l in lists_x[::10]]
     S.map("CircuitStorage.keeps_every_distinct", st, chunksize=8)
 
     S.map("is_isomorphic.classical_control_roles", ROLE_PAIRS)
     S.map("remove_redundant_circuits.classical_control_roles", ROLE_PAIRS[:4])
+    S.map("is_isomorphic.parallel_edges", PARALLEL_PAIRS)
+    S.map("remove_redundant_circuits.parallel_edges", PARALLEL_LISTS)
     S.note(
         "parameterised gates (RX/RY/RZ, ParameterizedOneQubitRotation) are outside the domain: the oracle is Clifford + "
         "measurement; direct()/ged() compare them with isinstance(op1, type(op2)) and never compare params (DESIGN C15 [F] note)"
     )
     S.note("compare_circuits(method='is_isomorphic') does not unwrap: a gate and its one-element wrapper are reported different "
            "(a missed equality, not an unsound one); insensitivity is demanded of the de-duplication front ends, which unwrap first")
+    if EXCLUDE_PARALLEL:
+        S.note("EXCLUDE_PARALLEL=True: circuits in which two operations are adjacent on two wires (parallel DAG edges) are kept "
+               "out of the is_isomorphic / remove_redundant_circuits domains beyond 2 operations; they are driven by the items "
+               "*.parallel_edges (open finding C15.findings.md #2)")
     return S
